@@ -31,7 +31,7 @@ func c09Msg(id uint64, size int, squeeze bool) *gen.Msg {
 }
 
 func c09(run *ev.Run) int {
-	run.SetRule("limit cases = N in {2,10,100,1000,65536,131072} (thorough: 13 values from 1 to 1 MiB; plus limits at the top of the integer range, under which everything must be delivered) x encoded size in {N-1,N,N+1,10N} (exact, proto codec; JSON sampled) x {identity, gzip} x position {first,middle,last} of a 3-message stream (or the single unary message) x 3 protocols x 4 kinds x {handler-side limit, client-side limit}; hostile cases = lying prefixes (2^32-1, 2^31, N+1 declared with 3 bytes present; <=N declared with fewer present), 32 MiB envelopes with reserved flags, 64/256 MiB gzip bombs and 6-byte bombs of a registered run-length algorithm (as data messages, as compressed Connect end-of-stream messages and gRPC-Web trailer frames, as error bodies of non-200 responses to unary and streaming calls), valid small bodies under a Content-Length unrelated to them (2^62 ... unknown), each measured alone on one goroutine with runtime.MemStats.TotalAlloc; also truthfully declared Content-Length with a well-compressed message within / above the limit; oracle: delivered <=> encoded size <= N (wire and decompressed; raw<=N<wire is either), failing call has invalid_argument/resource_exhausted, earlier messages delivered and none after, allocation for one message <= 16N + slack; distinct by (N, size class, compression class, position, protocol, kind, side)")
+	run.SetRule("limit cases = N in {2,10,100,1000,65536,131072} (thorough: 13 values from 1 to 1 MiB; plus limits at the top of the integer range, under which everything must be delivered) x encoded size in {N-1,N,N+1,10N} (exact, proto codec; JSON sampled) x {identity, gzip} x position {first,middle,last} of a 3-message stream (or the single unary message) x 3 protocols x 4 kinds x {handler-side limit, client-side limit}; hostile cases = lying prefixes (2^32-1, 2^31, N+1 declared with 3 bytes present; <=N declared with fewer present), 32 MiB envelopes with reserved flags, 64/256 MiB gzip bombs and 6-byte bombs of a registered run-length algorithm (as data messages, as compressed Connect end-of-stream messages and gRPC-Web trailer frames, as error bodies of non-200 responses to unary and streaming calls), valid small bodies under a Content-Length unrelated to them (2^62 ... unknown), each measured alone on one goroutine with runtime.MemStats.TotalAlloc; also truthfully declared Content-Length with a well-compressed message within / above the limit; history: one WithCompression value shared by handlers with limits 64 / 4 KiB / 256 MiB; oracle: delivered <=> encoded size <= N (wire and decompressed; raw<=N<wire is either), failing call has invalid_argument/resource_exhausted, earlier messages delivered and none after, allocation for one message <= 16N + slack; distinct by (N, size class, compression class, position, protocol, kind, side)")
 	Ns := []int{2, 10, 100, 1000, 65536, 131072}
 	if !run.Quick() {
 		Ns = []int{1, 2, 3, 10, 50, 100, 500, 1000, 4096, 65535, 65536, 131072, 1 << 20}
